@@ -656,7 +656,16 @@ CLAIMS = {
          "5 binary levels/unary/postfix grammar, to exactly the tree - the tie checks every compiler-produced item is paren-free), glue_free_expr "
          "(no two tokens written without a space read as another Go token), "
          "escape_go_string_decodes (Go's interpreted-string lexing of the escaped text gives back every string), no_break_inserts_semicolon "
-         "(line breaks inside an expression follow only `{` or `,`). Dead-code elimination (go/dce.rs) has a "
+         "(line breaks inside an expression follow only `{` or `,`). Character level (round 11): Model/GoLex.lean is Go's lexer on characters "
+         "(identifiers, keywords, decimal/float literals, interpreted strings, the 47 operators with maximal munch, blanks, newlines, automatic "
+         "semicolons); Props/GoLex.lean PROVES lex_layout (on any layout of the printer's pieces - one blank per space, any indentation after a "
+         "newline - whose tokens are each read back by lexTok, lex returns exactly the pieces' tokens, kinds and texts, with Go's automatic "
+         "semicolons), lexTok_word/lexTok_ident/lexTok_kw (a well-formed identifier or keyword followed by a non-letter/digit is read back as "
+         "that token) and lex_render_tokens_partial (both, for layouts of identifiers/keywords separated by blanks/newlines). NOT proved at "
+         "character level: numbers, strings, operators and tokens written with nothing between them (glueFree => lexTok boundary); these are "
+         "VALIDATED on every run: the real text of every item is lexed by Model/GoLex.lean and must give the token list of the model's Doc.pieces "
+         "with the semicolons (expectToks), and harness/src/goparse.rs's tokenizer (second, independent lexer) must give the same kinds and texts "
+         "(golex tie inside gv gopp). Dead-code elimination (go/dce.rs) has a "
          "Lean model tied exactly to the real pass (gv dce | gomlmodel dce) and theorems in Props/Dce.lean: dce_no_unused (every kept "
          "local and type-switch binding is read), dce_decl_before_use, prune_imports_exact, prune_funcs_closed. "
          "Name-test catalogue (gv c02names; validation, not proof): the string literals the middle/back end compares names with are re-read from the Rust on every run "
